@@ -22,6 +22,18 @@ CHECKS = {
         note="Trusted: z3, CPython, forksym proxies; the file is an uninterpreted array (reads return (offset,length) slices; no short reads). "
              "Family 'data': all numbers unbounded, <=2/<=3 range specs, chunk loops unwound K=3/4 with unwinding assertion. Family 'framing': "
              "multipart Content-Length digit-exact for sizes <10^4 / <10^6. Every path's model is re-run on a real temp file with the unshimmed code."),
+    "C11": dict(
+        technique="fork-on-branch symbolic execution of the real WebSocket wrapper: one inductive step from every (client,application) state pair plus bounded histories, state/call/event choices decided by z3, payloads symbolic",
+        design_ref="DESIGN.md §4 C11",
+        note="Trusted: z3, CPython, forksym. Step family assumes the invariant tying the two state fields to what was forwarded/delivered "
+             "(all 9 pairs are reachable through raw receive()/send(); each counterexample is confirmed by such a public-API history). "
+             "Histories from the initial state: <=3 / <=4 calls, <=2 / <=3 frames. Server send() never fails."),
+    "C17": dict(
+        technique="fork-on-branch symbolic execution of the real (Mutable)MultiMapping/QueryParams/FormData with z3 integer keys and values inside CPython's dict; one inductive step per operation against a list-of-pairs reference model",
+        design_ref="DESIGN.md §4 C17",
+        note="Trusted: z3, CPython dict/list, forksym. Pre-states are all pair lists up to the stated length (every reachable state is one); "
+             "keys/values are unbounded integers (code is type-agnostic). The QueryParams string round trip (urlencode/parse_qsl) is outside "
+             "the engine's reach and is not claimed."),
     "C03": dict(
         technique="fork-on-branch symbolic execution of the real parse_range with z3 (unbounded LIA integers; ReShim-interpreted regex over symbolic Latin-1 chars)",
         design_ref="DESIGN.md §4 C03",
